@@ -191,6 +191,20 @@ CHECKS.update({
         design='DESIGN.md §4 C03', engine='enumvals+worlds+refmodel'),
 })
 
+CHECKS.update({
+    'C02': dict(
+        technique='explicit-state BFS over the rewrite graph of computation-preserving configuration rewritings (compositions <= 2 quick / 3 thorough), path invariant on every edge; fresh-interpreter leg over all set iteration orders',
+        text='From each base configuration (chains, diamond, one file mounted twice with per-namespace context, multi-config parts, two-level uses, and one world per parameter-value shape: '
+             'scalars, nested lists/dicts, placeholders, parameter objects with scalar/list/dict/set arguments, hand-written and plain-class objects) a breadth-first search applies 17 '
+             'rewritings - rename / move config files, JSON<->YAML, mount under outer namespaces o and o::p, permute tasks/uses lists, mapping keys, object kwargs and dict arguments, Meta '
+             'declarations, change an ignored parameter, spell out / omit a not-persisted default, move a value to a dict / file / list context, change the value behind a placeholder, add an '
+             'absent optional input - and composes them to depth 2 (3). Every rewriting is first checked against the reference descriptor to be computation-preserving; on every edge the '
+             'relative storage path of each corresponding task on the real library must be unchanged. Every base is additionally built in fresh interpreters, one PYTHONHASHSEED per '
+             'iteration order of a three-element str set plus the VERIF_SEED-derived one.',
+        note='Known findings K2-K4 (set / dict arguments of AutoParameterObject, kwargs order of plain-class objects) are matched by (value shape, rewriting) signatures; everything else is reported.',
+        design='DESIGN.md §4 C02', engine='worlds+refmodel+procs'),
+})
+
 PENDING_REASON = 'check not built yet in this round (planned per DESIGN.md §4; technique applies)'
 
 
@@ -234,6 +248,7 @@ def manifest():
 
 
 ENGINES = [
+    {'name': 'procs', 'path': 'tcv/worker.py', 'serves_properties': ['C02'], 'kind_free_text': 'fresh-interpreter worker (chosen PYTHONHASHSEED) for real process boundaries'},
     {'name': 'fsops', 'path': 'tcv/fsops.py', 'serves_properties': ['C05', 'C20'], 'kind_free_text': 'file-system operation interposer: op log, in-situ crash injection, torn writes, tree-digest conformance'},
     {'name': 'sched', 'path': 'tcv/sched.py', 'serves_properties': ['C15'], 'kind_free_text': 'cooperative thread scheduler with lock/file interposition and preemption-bounded stateless DFS'},
     {'name': 'worlds', 'path': 'tcv/worlds.py, tcv/families.py', 'serves_properties': ['C01', 'C04'], 'kind_free_text': 'generated pipelines/configs/contexts with provenance terms, invocation log, fault plan'},
